@@ -405,6 +405,9 @@ func (it *Interp) beToU64(s *StrV) *Term {
 		return r
 	}
 	ln := it.strLenTerm(t)
+	if s.FromStore {
+		it.p.assume(Eq(ln, BVu(64, 8))) // invariant I2
+	}
 	if !it.p.branch(BVCmp("bvuge", ln, BVu(64, 8))) {
 		it.tpanic("BigEndianToUint64: short slice (opaque)")
 	}
